@@ -40,8 +40,10 @@ def run(prog, chk, tier):
         "retransmission intervals) and cancel_retransmissions only send_cancelled; (d) StunAgent::poll for any number of "
         "requests (one summary request) and for exactly two requests: it answers WaitUntil only when no request reported "
         "anything else, the instant is one reported by a request and, with two wake-ups, the comparisons taken on the "
-        "path order it before both. NOT decided: the numeric instants themselves, the configure_timeout formula, the "
-        "minimum over more than two concurrent schedules (run-time quantities).")
+        "path order it before both; (e) configure_timeout's formula: the closure it maps / folds over the index range, "
+        "evaluated in context for each constant index i < 10 (16 in the thorough tier) with durations as uninterpreted terms, "
+        "yields initial_rto * 2^i (positive evidence only; unreadable intervals are listed as not decided). NOT decided: the "
+        "numeric instants themselves, the minimum over more than two concurrent schedules (run-time quantities).")
     chk.trusted += ["rustc MIR", "std Instant/Duration arithmetic as uninterpreted terms with a total order", "specification rows in pylib/rules/agent_e2.py"]
     defaults(prog, chk)
     AE.req_poll(prog, chk)
@@ -50,3 +52,4 @@ def run(prog, chk, tier):
     A.no_whole_struct_writes(prog, chk, "no-struct-overwrite", A.REQ)
     AE.agent_poll(prog, chk)
     AE.handles(prog, chk, which=("configure_timeout", "cancel_retransmissions"))
+    AE.schedule_formula(prog, chk, n=(16 if tier == "thorough" else 10))
